@@ -36,7 +36,10 @@ def run_rs_demo(demo_dir, mode):
 
 def norm(s):
     import re
-    return re.sub(r"0x[0-9a-f]+", "0xADDR", s).strip()
+    s = re.sub(r"0x[0-9a-f]+", "0xADDR", s)
+    # some demonstrations end their expected file with a line recording the exit code
+    s = "\n".join(l for l in s.split("\n") if not re.match(r"^\(?exit( code)?[ =]\d+\)?$", l.strip()))
+    return s.strip()
 
 def main():
     targets = sys.argv[1:] or sorted(os.path.relpath(p, ROOT) for p in glob.glob(ROOT + "/C*/[AB]") if os.path.exists(p + "/patch.diff"))
